@@ -82,9 +82,9 @@ def r08a(chk, rid='R08.a'):
     chk.extra['exhaustive'] = True
     # parseUrl drops the utf-8 default so that a later @charset can still win
     pu = ast.unparse(chk.repo.fn(PARSE, 'CSSParser.parseUrl'))
-    chk.ob(rid, PARSE, 'CSSParser.parseUrl', 'the utf-8 default (type 5) is not passed on as an override', 'if enctype == 5:' in pu and 'encoding = None' in pu, '')
+    chk.ob(rid, PARSE, 'CSSParser.parseUrl', 'the utf-8 default (type 5) is not passed on as an override', 'if enctype == 5:' in pu and 'encoding = None' in pu, '', shape=True)
     ps = ast.unparse(chk.repo.fn(PARSE, 'CSSParser.parseString'))
-    chk.ob(rid, PARSE, 'CSSParser.parseString', "byte input is decoded by the css codec with the caller's encoding, which is also handed on as override", "codecs.getdecoder('css')(cssText, encoding=encoding)[0]" in ps and 'encodingOverride=encoding' in ps, '')
+    chk.ob(rid, PARSE, 'CSSParser.parseString', "byte input is decoded by the css codec with the caller's encoding, which is also handed on as override", "codecs.getdecoder('css')(cssText, encoding=encoding)[0]" in ps and 'encodingOverride=encoding' in ps, '', shape=True)
 
 
 def r08b(chk, rid='R08.b'):
@@ -111,7 +111,7 @@ def r08b(chk, rid='R08.b'):
             detail = f'`{key}=` is {text(v) if v is not None else "not passed"}: ' + why
         chk.ob(rid, IMP, 'CSSImportRule._setHref', f'`{key}` handed to the imported sheet is the used encoding under the right encoding type', ok, detail)
     src = ast.unparse(fn)
-    chk.ob(rid, IMP, 'CSSImportRule._setHref', 'the encoding and its type come from the parent sheet\'s _resolveImport', 'usedEncoding, enctype, cssText = self.parentStyleSheet._resolveImport(' in src.replace('(usedEncoding, enctype, cssText)', 'usedEncoding, enctype, cssText'), '')
+    chk.ob(rid, IMP, 'CSSImportRule._setHref', 'the encoding and its type come from the parent sheet\'s _resolveImport', 'usedEncoding, enctype, cssText = self.parentStyleSheet._resolveImport(' in src.replace('(usedEncoding, enctype, cssText)', 'usedEncoding, enctype, cssText'), '', shape=True)
     f2 = chk.repo.fn(SHEET, 'CSSStyleSheet._setCssTextWithEncodingOverride')
     g = cfgmod.CFG(f2)
     setter = [n for n in g.nodes if n.kind == 'stmt' and text(n.stmt) == 'self.cssText = cssText']
@@ -130,7 +130,7 @@ def r08b(chk, rid='R08.b'):
     ok = len(calls) == 1 and text(kw(calls[0], 'overrideEncoding')) == 'self.__encodingOverride' and text(kw(calls[0], 'parentEncoding')) == 'parentEncoding' and text(kw(calls[0], 'fetcher')) == 'self._fetcher'
     chk.ob(rid, SHEET, 'CSSStyleSheet._resolveImport', 'passes the stored override, the parent encoding and the sheet\'s fetcher to _readUrl', ok, '')
     src = ast.unparse(f3)
-    chk.ob(rid, SHEET, 'CSSStyleSheet._resolveImport', 'parent encoding = encoding being parsed, else the @charset rule, else None', 'parentEncoding = self.__newEncoding' in src and 'parentEncoding = self._cssRules[0].encoding' in src and 'parentEncoding = None' in src, '')
+    chk.ob(rid, SHEET, 'CSSStyleSheet._resolveImport', 'parent encoding = encoding being parsed, else the @charset rule, else None', 'parentEncoding = self.__newEncoding' in src and 'parentEncoding = self._cssRules[0].encoding' in src and 'parentEncoding = None' in src, '', shape=True)
 
 
 def r08c(chk, rid='R08.c'):
@@ -154,9 +154,9 @@ def r08c(chk, rid='R08.c'):
     ok = len(rets) == 1 and isinstance(rets[0].value, ast.Tuple) and text(rets[0].value.elts[1]) == 'e.end'
     chk.ob(rid, SER, '_escapecss', 'resumes after the unencodable span (e.end)', ok, 'characters are skipped or encoded twice')
     src = ast.unparse(fe)
-    chk.ob(rid, SER, '_escapecss', 'one escape per character of e.object[e.start:e.end], terminated by a space', 's = e.object[e.start:e.end]' in src and 'for x in s' in src and "'\\\\%s ' %" in src and 'hex(ord(x))' in src, src[:200])
+    chk.ob(rid, SER, '_escapecss', 'one escape per character of e.object[e.start:e.end], terminated by a space', 's = e.object[e.start:e.end]' in src and 'for x in s' in src and "'\\\\%s ' %" in src and 'hex(ord(x))' in src, src[:200], shape=True)
     ds = ast.unparse(m.get('CSSSerializer.do_CSSStyleSheet'))
-    chk.ob(rid, SER, 'CSSSerializer.do_CSSStyleSheet', "the target encoding is rule 0's encoding, else UTF-8", 'encoding = stylesheet.cssRules[0].encoding' in ds and "encoding = 'UTF-8'" in ds, '')
+    chk.ob(rid, SER, 'CSSSerializer.do_CSSStyleSheet', "the target encoding is rule 0's encoding, else UTF-8", 'encoding = stylesheet.cssRules[0].encoding' in ds and "encoding = 'UTF-8'" in ds, '', shape=True)
 
 
 def r08d(chk, rid='R08.d'):
@@ -164,12 +164,12 @@ def r08d(chk, rid='R08.d'):
     g = chk.repo.fn(SHEET, 'CSSStyleSheet._getEncoding')
     src = ast.unparse(g)
     rets = [text(r.value) for r in ast.walk(g) if isinstance(r, ast.Return)]
-    chk.ob(rid, SHEET, 'CSSStyleSheet._getEncoding', "returns rule 0's encoding or 'utf-8'", rets == ['self._cssRules[0].encoding', "'utf-8'"] and 'except (IndexError, AttributeError)' in src, str(rets))
+    chk.ob(rid, SHEET, 'CSSStyleSheet._getEncoding', "returns rule 0's encoding or 'utf-8'", rets == ['self._cssRules[0].encoding', "'utf-8'"] and 'except (IndexError, AttributeError)' in src, str(rets), shape=True)
     s = chk.repo.fn(SHEET, 'CSSStyleSheet._setEncoding')
     from .c09 import rule_list_writes
 
     src = ast.unparse(s)
     raw = [n for n in ast.walk(s) if isinstance(n, (ast.Assign, ast.Delete)) and '_cssRules' in text(n) and not text(n).startswith('rule = ')]
     chk.ob(rid, SHEET, 'CSSStyleSheet._setEncoding', 'no raw write to the rule list', not raw, str([text(x) for x in raw]))
-    chk.ob(rid, SHEET, 'CSSStyleSheet._setEncoding', 'existing @charset: its own setter, or deleteRule(0) for None', 'rule.encoding = encoding' in src and 'self.deleteRule(0)' in src and 'rule.CHARSET_RULE == rule.type' in src, '')
-    chk.ob(rid, SHEET, 'CSSStyleSheet._setEncoding', 'no @charset yet: insertRule(CSSCharsetRule(encoding=...), 0)', 'self.insertRule(cssutils.css.CSSCharsetRule(encoding=encoding), 0)' in src, '')
+    chk.ob(rid, SHEET, 'CSSStyleSheet._setEncoding', 'existing @charset: its own setter, or deleteRule(0) for None', 'rule.encoding = encoding' in src and 'self.deleteRule(0)' in src and 'rule.CHARSET_RULE == rule.type' in src, '', shape=True)
+    chk.ob(rid, SHEET, 'CSSStyleSheet._setEncoding', 'no @charset yet: insertRule(CSSCharsetRule(encoding=...), 0)', 'self.insertRule(cssutils.css.CSSCharsetRule(encoding=encoding), 0)' in src, '', shape=True)
